@@ -141,6 +141,12 @@ theorem filter_flatMap_eq {α β : Type} (l : List α) (f : α → List β) (p :
     rw [h x (by simp), ih (fun y hy => h y (by simp [hy]))]
     by_cases hq : q x = true <;> simp [hq]
 
+theorem count_map_pair (c : Nat) (l : List Nat) (i : Nat) :
+    (l.map (fun x => (c, x))).count (c, i) = l.count i := by
+  induction l with
+  | nil => simp
+  | cons x xs ih => simp [List.count_cons, ih]
+
 /-- calls for a common rule `c`: exactly the occurrences of class `c` -/
 theorem calls_filter_common (M : MM) (c : Nat) (hc : M.kind c = .common) (hp : M.hasProc c = true)
     (o : Occ) (ht : typedOcc M o.cls o.gm = true) :
